@@ -24,6 +24,29 @@ CHECKS = {
     ),
 }
 
+CHECKS.update({
+    "C01": ("exploration",
+        "invariant check over exhaustive short streams + Hypothesis-generated streams; identity of unique frame objects",
+        "All patterns up to 10 frames (thorough 14) x all accepted parameter tuples with max_length<=3 (4) incl. initial-phase settings, plus generated streams to 64 (300) frames / max_length 8 (24), three frame kinds, three delivery modes. Each token is compared frame-by-frame (object identity) with the stream positions it claims. Exhaustive inside bounds, sampled beyond.",
+        "harness source hands out frames in order; CPython; Hypothesis", "DESIGN.md 4/C01"),
+    "C02": ("exploration",
+        "invariant check over exhaustive short streams + generated streams; complete enumeration of the constructor argument grid against a decision table",
+        "Length/adjacency invariant on every token for the same stream population as C01; the constructor's accept/reject decision is enumerated completely on [-2,5]^4 x 3 x 10 (thorough [-3,8]^4) and compared with the predicate of the statement.",
+        "a token has max_length frames iff it was cut", "DESIGN.md 4/C02"),
+    "C03": ("exploration",
+        "invariant check (validator re-applied to token frames, run counter carried across cuts) over exhaustive + generated streams",
+        "Silence-run invariant, valid-frame presence, valid first frame, valid last frame under dropping, for the same population as C01 with silence-heavy initial-phase settings.",
+        "a token has max_length frames iff it was cut", "DESIGN.md 4/C03"),
+    "C05": ("exploration",
+        "differential: split() vs reference pipeline (exact-rational energy oracle -> reference segmentation -> byte ranges) on synthesized PCM",
+        "Synthesized recordings over all widths, 1-4 channels, 8 rates, windows of 1..12 samples with partial last window, all channel modes, three entry points; bytes, parameters and times of every region compared with the reference pipeline.",
+        "energy oracle and reference segmentation (each judged on its own by C07 / C04); windows synthesized >= 3 dB from the threshold", "DESIGN.md 4/C05"),
+    "C08": ("exploration",
+        "invariant over read histories: read-counting sources, every prefix of every stream, three delivery modes; sample-counting AudioSource for split()",
+        "For every stream (exhaustive to 9 frames, generated to 48/120) the tokenizer is run in all delivery modes and on every prefix; hand-over read counts, single end-of-stream read, mode equality and the prefix relation are checked; split() is driven over a counting source to check laziness.",
+        "harness counting sources", "DESIGN.md 4/C08"),
+})
+
 NOT_YET = "check not built yet in this round (planned in DESIGN.md section 10)"
 
 
